@@ -73,7 +73,7 @@ class Result:
 
 
 class Frame:
-    __slots__ = ('fname', 'fn', 'uid', 'depth', 'visits')
+    __slots__ = ('fname', 'fn', 'uid', 'depth', 'visits', 'havoced')
 
     def __init__(self, fname, fn, uid, depth):
         self.fname = fname
@@ -81,10 +81,12 @@ class Frame:
         self.uid = uid
         self.depth = depth
         self.visits = {}
+        self.havoced = set()
 
     def copy(self):
         f = Frame(self.fname, self.fn, self.uid, self.depth)
         f.visits = dict(self.visits)
+        f.havoced = set(self.havoced)
         return f
 
 
@@ -95,7 +97,8 @@ def type_bits(ty):
 
 class Interp:
     def __init__(self, facts, opaque=(), sym_facts=None, max_depth=14, skip_asserts=('misaligned', 'null_deref'),
-                 models=None, step_limit=200000, revisit_limit=4, trust_asserts=(), on_call=None):
+                 models=None, step_limit=200000, revisit_limit=4, trust_asserts=(), on_call=None, dyn_filter=None,
+                 loop_mode='abort', path_budget=20000):
         self.facts = facts
         self.fns = facts['functions']
         self.adts = facts['adts']
@@ -110,6 +113,11 @@ class Interp:
         self.step_limit = step_limit
         self.revisit_limit = revisit_limit
         self.on_call = on_call
+        self.dyn_filter = dyn_filter
+        self.loop_mode = loop_mode      # 'abort' | 'havoc'
+        self.path_budget = path_budget
+        self.paths_done = 0
+        self._loops = {}
         self.discr_cache = {}
         for name, adt in self.adts.items():
             if adt['kind'] == 'enum':
@@ -122,9 +130,134 @@ class Interp:
     def run(self, fname, args, state=None):
         st = state if state is not None else self.new_state()
         out = []
+        self.paths_done = 0
         for r in self.call_fn(fname, args, st, 0, ('<entry>', 0, 0)):
             out.append(r)
+            self.paths_done += 1
+            if self.paths_done > self.path_budget:
+                out.append(Result('abort', None, st, ('<entry>', 0, 0), 'path budget exceeded'))
+                break
         return out
+
+    # ------------------------------------------------------------- loops
+    def loops_of(self, fname):
+        """natural loops of a function: head bb -> set of body blocks"""
+        if fname in self._loops:
+            return self._loops[fname]
+        fn = self.fns[fname]
+        blocks = fn['blocks']
+
+        def succs(b):
+            t = blocks[b]['term']
+            k = t['k']
+            if k == 'goto':
+                out = [t['target']]
+            elif k == 'switch':
+                out = [x for _, x in t['targets']] + [t['otherwise']]
+            elif k in ('call', 'assert', 'drop'):
+                out = [t['target']] if t.get('target', -1) >= 0 else []
+            else:
+                out = []
+            return [x for x in out if not blocks[x]['cleanup']]
+        reach = []
+        seen = set()
+        stack = [0]
+        preds = {}
+        while stack:
+            b = stack.pop()
+            if b in seen:
+                continue
+            seen.add(b)
+            reach.append(b)
+            for x in succs(b):
+                preds.setdefault(x, []).append(b)
+                stack.append(x)
+        dom = {b: set(seen) for b in seen}
+        dom[0] = {0}
+        changed = True
+        while changed:
+            changed = False
+            for b in sorted(seen):
+                if b == 0:
+                    continue
+                ps = [dom[p] for p in preds.get(b, []) if p in dom]
+                new = (set.intersection(*ps) if ps else set()) | {b}
+                if new != dom[b]:
+                    dom[b] = new
+                    changed = True
+        loops = {}
+        for u in seen:
+            for h in succs(u):
+                if h in dom[u]:
+                    body = loops.setdefault(h, {h})
+                    st2 = [u]
+                    while st2:
+                        x = st2.pop()
+                        if x in body:
+                            continue
+                        body.add(x)
+                        st2.extend(preds.get(x, []))
+        self._loops[fname] = loops
+        return loops
+
+    def havoc_loop(self, st, fr, head):
+        """forget everything the loop headed at `head` may modify (sound summary of 0..n iterations)"""
+        fn = fr.fn
+        body = self.loops_of(fr.fname)[head]
+        tag = '%s:bb%d' % (fr.fname.split('::')[-1], head)
+        for b in sorted(body):
+            blk = fn['blocks'][b]
+            places = []
+            for s in blk['stmts']:
+                if s['k'] == 'assign':
+                    places.append((s['place'], s['rv']))
+            t = blk['term']
+            if t['k'] == 'call':
+                places.append((t['dest'], None))
+                for a in t['args']:
+                    if a['k'] in ('copy', 'move'):
+                        try:
+                            v = self.operand(st, fr, a)
+                        except Abort:
+                            v = None
+                        self._havoc_reachable(st, v, tag)
+            for p, rv in places:
+                if rv is not None and rv['k'] in ('ref', 'rawptr') and (rv['k'] == 'rawptr' or rv.get('mut')):
+                    pass
+                has_deref = any(e['k'] == 'deref' for e in p['proj'])
+                if not has_deref:
+                    root = ('L', fr.uid, p['local'])
+                    ty = fn['locals'][p['local']]['ty']
+                    cur = st.mem.get(root)
+                    if cur is not None and cur[0] in ('ref', 'slice', 'fn'):
+                        # pointer-valued temporaries are recomputed inside the body before use
+                        continue
+                    st.mem[root] = S(type_bits(ty), 'loopvar:%s:_%d' % (tag, p['local']))
+                else:
+                    try:
+                        root, path, view = self.resolve_place(st, fr, p)
+                    except Abort:
+                        continue
+                    self._havoc_root(st, root, tag)
+
+    def _havoc_root(self, st, root, tag):
+        if root[0] == 'O':
+            st.mem[root] = S(0, 'loop(%s)%s' % (tag, root[1].split(')')[-1] if root[1].startswith('loop(') else root[1]))
+        else:
+            st.mem[root] = S(0, 'loopvar:%s:%s' % (tag, root[2]))
+
+    def _havoc_reachable(self, st, v, tag, depth=0):
+        if v is None or depth > 3:
+            return
+        if v[0] in ('ref', 'slice'):
+            self._havoc_root(st, v[1], tag)
+        elif v[0] == 's' and v[1] == 0:
+            root = ('O', v[2])
+            if root in st.mem:
+                self._havoc_root(st, root, tag)
+        elif v[0] == 'agg':
+            for x in v[2]:
+                self._havoc_reachable(st, x, tag, depth + 1)
 
     def arg_object(self, st, name, ty=''):
         """A pointer value to a fresh abstract object named `name`."""
@@ -495,7 +628,8 @@ class Interp:
                             inner = inner[len(pre):]
                             break
                     inner = inner.rstrip('>')
-                    st.dyn[(v[1], v[2])] = inner
+                    if not inner.startswith('dyn '):
+                        st.dyn[(v[1], v[2])] = inner
                     return v
             return v
         if kind in ('PtrToPtr', 'Transmute', 'FnPtrToPtr'):
@@ -554,6 +688,14 @@ class Interp:
             if fr.visits[bb] > 5000:
                 yield Result('loop', None, st, (fr.fname, 0, bb), 'block revisit limit')
                 return
+            if self.loop_mode == 'havoc' and bb in self.loops_of(fr.fname):
+                if bb in fr.havoced:
+                    # back at the head: this iteration is covered by the havoced state
+                    yield Result('loopback', None, st, (fr.fname, 0, bb), 'loop iteration')
+                    return
+                if self._loop_needs_havoc(st, fr, bb):
+                    fr.havoced.add(bb)
+                    self.havoc_loop(st, fr, bb)
             block = fn['blocks'][bb]
             try:
                 for s in block['stmts']:
@@ -652,6 +794,45 @@ class Interp:
             except Abort as e:
                 yield Result('abort', None, st, (fr.fname, block['term']['line'], bb), e.why)
                 return
+
+    def _loop_needs_havoc(self, st, fr, head):
+        """loops whose trip count is concretely decided are simply unrolled"""
+        fn = fr.fn
+        # peek: does the head's (or the first branching block's) condition fold to a constant right now?
+        body = self.loops_of(fr.fname)[head]
+        b = head
+        seen = set()
+        while b in body and b not in seen:
+            seen.add(b)
+            t = fn['blocks'][b]['term']
+            if t['k'] == 'switch':
+                probe = st.copy()
+                pfr = fr.copy()
+                try:
+                    for s in fn['blocks'][b]['stmts']:
+                        self.stmt(probe, pfr, s, b)
+                    d = self.operand(probe, pfr, t['discr'])
+                except Abort:
+                    return True
+                return not (is_int(d) and probe.env.const_of(d) is not None)
+            if t['k'] == 'goto':
+                b = t['target']
+                continue
+            if t['k'] == 'call':
+                # e.g. Range::next: decided when the range is concrete
+                callee = t['resolved'] or t['callee']
+                if 'Iterator' in callee and 'next' in callee:
+                    try:
+                        a0 = self.operand(st, fr, t['args'][0])
+                        rng = self.read(st, a0[1], a0[2]) if a0 is not None and a0[0] == 'ref' else None
+                    except Abort:
+                        rng = None
+                    if rng is not None and rng[0] == 'agg' and len(rng[2]) == 2 and all(
+                            is_int(x) and st.env.const_of(x) is not None for x in rng[2]):
+                        return False
+                return True
+            return True
+        return True
 
     def assert_detail(self, st, fr, t):
         try:
@@ -800,6 +981,8 @@ class Interp:
         for ty in all_types:
             if bound is not None and bound != ty:
                 continue
+            if self.dyn_filter is not None and not self.dyn_filter(t['callee'], ty):
+                continue
             target = None
             for tyname, imp in cands:
                 if tyname == ty:
@@ -847,7 +1030,9 @@ class Interp:
                         for pre in ('std::boxed::Box<', '&mut ', '&'):
                             if inner.startswith(pre):
                                 inner = inner[len(pre):]
-                        tys.add(inner.rstrip('>'))
+                        inner = inner.rstrip('>')
+                        if not inner.startswith('dyn '):
+                            tys.add(inner)
         return sorted(tys)
 
 
@@ -885,6 +1070,14 @@ def m_min(ip, st, fr, t, args, site, dest_ty):
         yield (O(a[1], 'umin', a, b), st, 'ok', None)
     else:
         yield (st.fresh(type_bits(dest_ty), 'min'), st, 'ok', None)
+
+
+def m_max(ip, st, fr, t, args, site, dest_ty):
+    a, b = args
+    if is_int(a) and is_int(b):
+        yield (O(a[1], 'umax', a, b), st, 'ok', None)
+    else:
+        yield (st.fresh(type_bits(dest_ty), 'max'), st, 'ok', None)
 
 
 def m_slice_len(ip, st, fr, t, args, site, dest_ty):
@@ -1179,6 +1372,8 @@ STD_MODELS = {
     'core::num::<impl u16>::overflowing_sub': m_overflowing('sub'),
     'std::cmp::Ord::min': m_min,
     'core::cmp::Ord::min': m_min,
+    'std::cmp::Ord::max': m_max,
+    'core::cmp::Ord::max': m_max,
     'core::slice::<impl [T]>::len': m_slice_len,
     'core::slice::index::<impl std::ops::Index<I> for [T]>::index': m_index,
     'core::slice::index::<impl std::ops::IndexMut<I> for [T]>::index_mut': m_index,
